@@ -426,7 +426,7 @@ func run(kind string, cfg int, src io.Reader, streamLen int) (o outcome) {
 			rd = r
 		}
 	}
-	bound := func() uint64 { return 4*(uint64(streamLen)+o.snap) + 1<<20 }
+	bound := func() uint64 { return 8*(uint64(streamLen)+o.snap) + 1<<20 }
 	if d := allocs() - a0; d > bound() {
 		o.viol, o.what = "allocation-out-of-proportion", fmt.Sprintf("constructor allocated %d bytes for a %d-byte stream", d, streamLen)
 	}
@@ -673,8 +673,82 @@ func main() {
 				}
 			}},
 	}
+	// large records: files written by the real writers with a declared snap length and a record
+	// size at, just above and well above the sizes at which the readers grow or cap their buffers
+	type largeCase struct {
+		kind       string
+		snap, size int
+		bigAt      int
+	}
+	var larges []largeCase
+	for _, kind := range []string{"pcap", "pcapng"} {
+		for _, snap := range []int{0, 65535, 1 << 20, 1<<20 + 1, 2 << 20, 8 << 20} {
+			for _, size := range []int{60, 65535, 65536, 65537, 1 << 20, 1<<20 + 1, 2 << 20} {
+				if (snap != 0 && size > snap) || (snap == 0 && kind == "pcap") {
+					continue
+				}
+				larges = append(larges, largeCase{kind, snap, size, 1}, largeCase{kind, snap, size, 2})
+			}
+		}
+	}
+	phases = append(phases, enum.Phase{Name: "large-records", Len: int64(len(larges)), ChunkHint: 1,
+		Describe: func(i int64) any {
+			l := larges[i]
+			return map[string]any{"format": l.kind, "declared_snap_length": l.snap, "record_bytes": l.size, "record_index": l.bigAt}
+		},
+		Run: func(i int64, w *enum.Worker) {
+			l := larges[i]
+			var b bytes.Buffer
+			sizes := []int{60, 60, 60, 60}[:l.bigAt+2]
+			sizes[l.bigAt] = l.size
+			ts := time.Unix(1000, 0)
+			write := func(n int) error { return nil }
+			if l.kind == "pcap" {
+				pw := pcapgo.NewWriter(&b)
+				pw.WriteFileHeader(uint32(l.snap), 1)
+				write = func(n int) error {
+					return pw.WritePacket(gopacket.CaptureInfo{Timestamp: ts, CaptureLength: n, Length: n}, make([]byte, n))
+				}
+			} else {
+				nw, err := pcapgo.NewNgWriterInterface(&b, pcapgo.NgInterface{Name: "x", LinkType: 1, SnapLength: uint32(l.snap), TimestampResolution: 9}, pcapgo.NgWriterOptions{})
+				if err != nil {
+					return
+				}
+				write = func(n int) error {
+					if err := nw.WritePacket(gopacket.CaptureInfo{Timestamp: ts, CaptureLength: n, Length: n}, make([]byte, n)); err != nil {
+						return err
+					}
+					return nw.Flush()
+				}
+			}
+			for _, n := range sizes {
+				if write(n) != nil {
+					return
+				}
+			}
+			d := b.Bytes()
+			var o outcome
+			if w.Guard(fmt.Sprintf("reader(%s) large record", l.kind), func() { o = run(l.kind, 0, bytes.NewReader(d), len(d)) }) {
+				return
+			}
+			w.Count("large_files", 1)
+			key := fmt.Sprintf("|%s", l.kind)
+			switch {
+			case o.viol != "":
+				w.Violation("c15|"+o.viol+key, o.what)
+			case o.ctorErr || o.err != io.EOF.Error() || len(o.pkts) != len(sizes):
+				w.Violation("c15|large-record-file-not-read-to-its-end"+key, fmt.Sprintf("declared snap length %d, records %v: %d packets, constructor error %v, final error %q", l.snap, sizes, len(o.pkts), o.ctorErr, o.err))
+			default:
+				for k, p := range o.pkts {
+					if p.n != sizes[k] {
+						w.Violation("c15|large-record-length-wrong"+key, fmt.Sprintf("record %d has %d bytes, read %d", k, sizes[k], p.n))
+					}
+				}
+			}
+			w.OutcomeString(fmt.Sprintf("large/%s/%d/%.20s", l.kind, len(o.pkts), o.err))
+		}})
 	r.Coverage["seed_files"] = len(sp.seeds)
-	r.Coverage["rule"] = "seeds: every capture file of the repository up to the stated size (pcap, pcapng in both byte orders), two synthetic snoop files, gzip-wrapped copies. deviations (d<=1): unmodified, every truncation, every byte x 24 values, every 4-aligned 32-bit word x 16 values x both byte orders, every 2-aligned 16-bit word x 7 values x both byte orders; read with the matching reader (pcapng: default, WantMixedLinkType, SkipUnknownVersion) alternating all read calls, and again in reads of 1, 3 and 7 bytes. stream-faults on unmodified seeds: 7 constant read sizes, one short read at every offset, one injected error (plain and net.Error timeout) at every read call of two chunkings. Per call: no panic, no stall (worker watchdog), at most bytes+16 calls, len(data)==CaptureLength<=Length, bytes allocated by the call <= 4*(stream bytes + declared snap length)+1MiB (runtime/metrics), identical results under every chunking, injected errors surface and earlier packets are unchanged. distinct_nontrivial = distinct (format, packets returned, constructor failed, error prefix) outcomes."
+	r.Coverage["rule"] = "seeds: every capture file of the repository up to the stated size (pcap, pcapng in both byte orders), two synthetic snoop files, gzip-wrapped copies. deviations (d<=1): unmodified, every truncation, every byte x 24 values, every 4-aligned 32-bit word x 16 values x both byte orders, every 2-aligned 16-bit word x 7 values x both byte orders; read with the matching reader (pcapng: default, WantMixedLinkType, SkipUnknownVersion) alternating all read calls, and again in reads of 1, 3 and 7 bytes. stream-faults on unmodified seeds: 7 constant read sizes, one short read at every offset, one injected error (plain and net.Error timeout) at every read call of two chunkings. Per call: no panic, no stall (worker watchdog), at most bytes+16 calls, len(data)==CaptureLength<=Length, bytes allocated by the call <= 8*(stream bytes + declared snap length)+1MiB (runtime/metrics), identical results under every chunking, injected errors surface and earlier packets are unchanged. large-records: files written by the real writers with declared snap lengths 0/65535/1 MiB/1 MiB+1/2 MiB/8 MiB and one record of 60/65535/65536/65537/1 MiB/1 MiB+1/2 MiB bytes (second or third record, so that it meets a copying and a buffer-reusing call) must be read to their end with every record at its length. distinct_nontrivial = distinct (format, packets returned, constructor failed, error prefix) outcomes."
 	r.Assumptions = []string{"allocation measured with runtime/metrics /gc/heap/allocs:bytes around each call in a single-threaded worker", "worker address space limited to 6 GiB: larger allocations end the worker and are attributed to the case"}
 	enum.Main(r, phases)
 	r.Finish()
